@@ -8,7 +8,7 @@ from .rvc_relocations import BcImm11Relocation, BcImm8Relocation
 from .rvc_relocations import CBImm11Relocation, CBlImm11Relocation
 from .relocations import BImm20Relocation
 from ..generic_instructions import ArtificialInstruction
-from .instructions import Andr, Orr, Xorr, Subr, Addi, Slli, Srli
+from .instructions import Andr, Orr, Xorr, Subr, Addi, Slli, Srli, Srai
 from .instructions import Lw, Sw, Blt, Bgt, Bge, Beq, Bne, Ble, Blr
 from .instructions import Bgtu, Bltu, Bgeu, Bleu
 
@@ -685,7 +685,7 @@ def pattern_subi32(context, tree, c0, c1):
     "reg",
     "ADDI32(reg, CONSTI32)",
     size=1,
-    condition=lambda t: t.children[1].value < 256,
+    condition=lambda t: t.children[1].value in range(-2048, 256),
 )
 def pattern_addi32_1(context, tree, c0):
     d = context.new_reg(RiscvRegister)
@@ -698,7 +698,7 @@ def pattern_addi32_1(context, tree, c0):
     "reg",
     "ADDI32(CONSTI32, reg)",
     size=1,
-    condition=lambda t: t.children[0].value < 256,
+    condition=lambda t: t.children[0].value in range(-2048, 256),
 )
 def pattern_addi32_2(context, tree, c0):
     d = context.new_reg(RiscvRegister)
@@ -729,7 +729,7 @@ def pattern_shli32_1_(context, tree, c0):
 def pattern_shri32(context, tree, c0):
     d = context.new_reg(RiscvRegister)
     c1 = tree.children[1].value
-    context.emit(Srliv(d, c0, c1))
+    context.emit(Srai(d, c0, c1))
     return d
 
 
